@@ -5,7 +5,7 @@ import connlane as L
 MC = {"quick": [("mc-faults-stall", "MCLdapConn", "MCConn_c04_stall.cfg", 900, 8)],
       "thorough": [("mc-faults", "MCLdapConn", "MCConn_c04_quick.cfg", 900, 12),
                    ("mc-faults-stall", "MCLdapConn", "MCConn_c04_stall.cfg", 900, 12),
-                   ("mc-liveness", "MCLdapConn", "MCConn_c04_live.cfg", 3400, 12)]}
+                   ("mc-liveness", "MCLdapConn", "MCConn_c04_live.cfg", 3000, 12)]}
 PROFILES = {"quick": [("faults", 300), ("mixed", 100), ("stallfaults", 200)],
             "thorough": [("faults", 5000), ("mixed", 2000), ("stallfaults", 3000)]}
 SCRIPTS = {"quick": [("GenConn_faults5.cfg", 6), ("GenConn_unbind4.cfg", 20)], "thorough": [("GenConn_faults5.cfg", 1), ("GenConn_unbind4.cfg", 2)]}
